@@ -147,6 +147,10 @@ def run_case(case, ctx):
             ctx.violation("data", form, "REJECTED-VALID", wit, traits)
         return
     ctx.mon("M1.asm-post")
+    if t >= len(o.stmts):
+        ctx.outcome("statement-missing")
+        ctx.violation("data", form, "STATEMENT-MISSING-FROM-PROGRAM", wit, traits)
+        return
     st = o.stmts[t]
     got = bytes(st["bytes"])
     if exp is None:
@@ -172,7 +176,7 @@ def run_case(case, ctx):
             sym = "WRONG-LENGTH:%+d" % (len(got) - len(exp) // 2) if abs(len(got) - len(exp) // 2) < 3 else "WRONG-LENGTH"
         ctx.violation("data", form, sym, dict(wit, got=got.hex()[:60], want=exp[:60]), traits)
         return
-    nxt = o.stmts[t + 1]
+    nxt = o.stmts[t + 1] if t + 1 < len(o.stmts) else {"addr": None}
     if nxt["addr"] is not None and st["addr"] is not None and nxt["addr"] - st["addr"] != len(got) and case["mn"] not in ("ORG",):
         ctx.violation("data", form, "RESERVED-SIZE:%+d" % (len(got) - (nxt["addr"] - st["addr"])), wit, traits)
         return
